@@ -377,8 +377,9 @@ def write_evidence(ctx, coverage, assumptions, violations):
       "violations": violations,
   }
   path = os.path.join(ROOT, "evidence", ctx.pid + ".json")
-  if os.path.realpath(os.environ.get("VERIF_REPO", "/repo")) != "/repo":
-    # a run against a scratch copy (seeded change): never overwrite the evidence of /repo itself
+  if os.path.realpath(os.environ.get("VERIF_REPO", "/repo")) != "/repo" or getattr(ctx, "is_replay", False):
+    # a run against a scratch copy (seeded change) or a single-case replay: never overwrite the evidence of the
+    # full check of /repo itself
     path = os.path.join(tempfile.gettempdir(), "verif_evidence_scratch_%s.json" % ctx.pid)
   tmp = path + ".tmp"
   with open(tmp, "w") as f:
@@ -406,6 +407,7 @@ def run_property(mod, ctx, replay_path=None):
      optional extra(ctx) -> list of (kind, message, replay payload) violations.
   """
   pid = mod.ID
+  ctx.is_replay = bool(replay_path)
   violations = []   # (message, replay payload, found_input: bool)
   known_lines = []
 
